@@ -24,21 +24,30 @@ Qed.
 Theorem query_keeps_state m o : o <> OUnroll -> fst (query m o) = m.
 Proof. destruct o; simpl; intros; try reflexivity; congruence. Qed.
 
-(* the answers to counts, flags, depth and validate depend on the current program only
-   (not on whether an unrolled view exists) *)
+(* the answers to counts, depth and validate depend on the current program only; the flags also on
+   whether the module has an unrolled view (the flat program is then the current one: a statement in
+   code that never runs is part of the text but not of it) *)
 Definition program_query (o : mop) : bool :=
   match o with OValidate | ODepth | ONumQ | ONumC | OHasM | OHasB => true | _ => false end.
+Definition view_query (o : mop) : bool := match o with OHasM | OHasB => true | _ => false end.
 
 Theorem answers_depend_on_program m m' o :
-  program_query o = true -> sp_prog m = sp_prog m' -> sp_q2 m = sp_q2 m' -> snd (query m o) = snd (query m' o).
+  program_query o = true -> sp_prog m = sp_prog m' -> sp_q2 m = sp_q2 m' ->
+  (view_query o = true -> sp_unrolled m = sp_unrolled m') ->
+  snd (query m o) = snd (query m' o).
 Proof.
-  intros Ho Hp Hq. destruct o; try discriminate Ho; cbn [query snd]; unfold flat, has_answer; rewrite ?Hp, ?Hq; reflexivity.
+  intros Ho Hp Hq Hu. destruct o; try discriminate Ho; cbn [query snd]; unfold flat, has_answer; rewrite ?Hp, ?Hq, ?(Hu eq_refl); reflexivity.
 Qed.
 
+Lemma query_keeps_view m o : o <> OUnroll -> sp_unrolled (fst (query m o)) = sp_unrolled m.
+Proof. intros H. rewrite query_keeps_state by exact H. reflexivity. Qed.
+
 Corollary queries_are_idempotent m o1 o2 :
-  program_query o2 = true -> snd (query (fst (query m o1)) o2) = snd (query m o2).
+  program_query o2 = true -> (view_query o2 = true -> o1 <> OUnroll) ->
+  snd (query (fst (query m o1)) o2) = snd (query m o2).
 Proof.
-  intros H. destruct (query_keeps_program m o1) as [Hp Hq]. now apply answers_depend_on_program.
+  intros H Hv. destruct (query_keeps_program m o1) as [Hp Hq]. apply answers_depend_on_program; auto.
+  intros V. apply query_keeps_view. exact (Hv V).
 Qed.
 
 (* ---------- set_nth / nth_error ---------- *)
@@ -211,8 +220,19 @@ Proof.
   unfold run_q in *. split; congruence.
 Qed.
 
-Corollary answer_stable_under_queries m os o :
-  program_query o = true -> snd (query (run_q m os) o) = snd (query m o).
+Lemma queries_keep_view_history os : forall m, ~ In OUnroll os -> sp_unrolled (run_q m os) = sp_unrolled m.
 Proof.
-  intros H. destruct (queries_keep_program_history os m). now apply answers_depend_on_program.
+  induction os as [|o os IH]; intros m Hn; [reflexivity|]. simpl.
+  unfold run_q in *. rewrite IH by (intros H; apply Hn; right; exact H).
+  apply query_keeps_view. intros ->. apply Hn. left; reflexivity.
+Qed.
+
+(* counts, depth and validate: stable under any history of queries (unroll included); the flags:
+   under any history of queries that does not produce an unrolled view *)
+Corollary answer_stable_under_queries m os o :
+  program_query o = true -> (view_query o = true -> ~ In OUnroll os) ->
+  snd (query (run_q m os) o) = snd (query m o).
+Proof.
+  intros H Hv. destruct (queries_keep_program_history os m). apply answers_depend_on_program; auto.
+  intros V. apply queries_keep_view_history. exact (Hv V).
 Qed.
